@@ -14,17 +14,17 @@ Requires(f) == CASE f = "PVTO" -> {"DISGAS"} [] f = "PVTG" -> {"VAPOIL"} [] f = 
                  [] f \in {"GROUPS", "UDQ", "ACTIONX", "WTEST", "MSW", "VFP", "GINJ"} -> {"WELLS"}
                  [] f = "MSWBR" -> {"WELLS", "MSW"}       \* a lateral numbered below the continuation of the main stem
                  [] OTHER -> {}
-VARIABLES ntpvt, ntsfun, neql, fs
-vars == <<ntpvt, ntsfun, neql, fs>>
-Init == ntpvt \in {1, 2} /\ ntsfun \in {1, 2} /\ neql \in {1, 2} /\ fs = {}
+VARIABLES ntpvt, ntsfun, neql, unit, fs
+vars == <<ntpvt, ntsfun, neql, unit, fs>>
+Init == ntpvt \in {1, 2} /\ ntsfun \in {1, 2} /\ neql \in {1, 2} /\ unit \in {"METRIC", "FIELD", "LAB", "PVT-M"} /\ fs = {}
 Add(f) == /\ f \notin fs /\ Requires(f) \subseteq fs /\ Cardinality(fs) < MaxFeatures
           /\ (f = "SATNUM" => ntsfun = 2) /\ (f = "PVTNUM" => ntpvt = 2)
-          /\ fs' = fs \cup {f} /\ UNCHANGED <<ntpvt, ntsfun, neql>>
+          /\ fs' = fs \cup {f} /\ UNCHANGED <<ntpvt, ntsfun, neql, unit>>
 Next == \E f \in Features : Add(f)
 Spec == Init /\ [][Next]_vars
 Thin == 6
 Emit == IF Cardinality(fs) >= MaxFeatures
-        THEN (IF RandomElement(1..Thin) = 1 THEN PrintT(<<"GEN", ToJson([ntpvt |-> ntpvt, ntsfun |-> ntsfun, neql |-> neql, fs |-> fs])>>) ELSE TRUE) /\ FALSE
+        THEN (IF RandomElement(1..Thin) = 1 THEN PrintT(<<"GEN", ToJson([ntpvt |-> ntpvt, ntsfun |-> ntsfun, neql |-> neql, unit |-> unit, fs |-> fs])>>) ELSE TRUE) /\ FALSE
         ELSE TRUE
 \* prerequisites are always satisfied
 Closed == \A f \in fs : Requires(f) \subseteq fs
